@@ -1,0 +1,52 @@
+// Copyright 2026 Dolthub, Inc.
+//
+// Licensed under the Apache License, Version 2.0 (the "License");
+// you may not use this file except in compliance with the License.
+// You may obtain a copy of the License at
+//
+//     http://www.apache.org/licenses/LICENSE-2.0
+//
+// Unless required by applicable law or agreed to in writing, software
+// distributed under the License is distributed on an "AS IS" BASIS,
+// WITHOUT WARRANTIES OR CONDITIONS OF ANY KIND, either express or implied.
+// See the License for the specific language governing permissions and
+// limitations under the License.
+
+//go:build verif
+
+package datas
+
+// Machine-checked contracts for /verif (comment-only; see /verif/DESIGN.md §2.2).
+
+// ---- dataset (branch / tag) names (C44): the git ref-name rules, component by component
+
+//@ const_global refnameActions
+
+// validateDatasetIdComponent: when it accepts, the first n bytes are one well-formed component.
+//@ func validateDatasetIdComponent
+//@   property C44
+//@   nopanic
+//@   requires len(refname) > 0
+//@   ensures  result1 == nil ==> 0 < result0 && result0 <= len(refname) && refname[0] != '.'
+//@   ensures  result1 == nil ==> forall k in 0..result0: refname[k] < 128 && refnameActions[refname[k]] != refnameIllegal
+//@   ensures  result1 == nil ==> forall k in 1..result0: !(refname[k-1] == '.' && refname[k] == '.')
+//@   ensures  result1 == nil ==> forall k in 1..result0: !(refname[k-1] == '@' && refname[k] == '{')
+//@   ensures  result1 == nil ==> forall k in 0..result0-1: refname[k] != '/'
+//@   ensures  result1 == nil && result0 < len(refname) ==> refname[result0-1] == '/'
+//@   loop 1
+//@     invariant rangeidx == numChars && 0 <= numChars && numChars <= len(refname) && refname[0] != '.'
+//@     invariant forall k in 0..numChars: refname[k] < 128 && refnameActions[refname[k]] != refnameIllegal && refname[k] != '/'
+//@     invariant numChars == 0 ==> last == 0
+//@     invariant numChars > 0 ==> last == rune(refname[numChars-1])
+//@     invariant forall k in 1..numChars: !(refname[k-1] == '.' && refname[k] == '.')
+//@     invariant forall k in 1..numChars: !(refname[k-1] == '@' && refname[k] == '{')
+
+// ValidateDatasetId: never panics, terminates, and rejects the empty name, "@" and names ending in '/' or '.'
+//@ func ValidateDatasetId
+//@   property C44
+//@   nopanic
+//@   ensures  result == nil ==> len(refname) > 0 && refname[len(refname)-1] != '/' && refname[len(refname)-1] != '.'
+//@   ensures  result == nil ==> !(len(refname) == 1 && refname[0] == '@')
+//@   loop 1
+//@     invariant len(refname) >= 0
+//@     decreases len(refname)
